@@ -235,3 +235,67 @@ func zzH_C07_output() {
 	zzv.Assert("reports-item-printed", found)
 	_ = time.Now
 }
+
+func init() {
+	zzHarnesses["zzH_C09_update"] = zzH_C09_update
+}
+
+// H9.update: selections survive a new result list of the same input, lose exactly the items that
+// --tail trimmed away (minor revision: ordinals below the first loaded one), and are dropped on
+// reload (major revision).
+func zzH_C09_update() {
+	items := zzItems(4)
+	t := &Terminal{multi: 4, selected: make(map[int32]selectedItem), merger: zzMergerOf(items),
+		reqBox: util.NewEventBox(), eventChan: make(chan tui.Event, 8), keymap: map[tui.Event][]*action{},
+		numLinesCache: map[int32]numLinesCacheValue{}, revision: revision{major: 1, minor: 1}, reading: true}
+	was := [4]bool{}
+	for i := range items {
+		if zzv.Bool() {
+			t.selectItem(items[i])
+			was[i] = true
+		}
+	}
+	// the new list: a window [lo, lo+n) of the items
+	lo := zzv.Choose(0, 2)
+	n := zzv.Choose(0, 4-lo)
+	list := make([]Result, n)
+	for i := range list {
+		list[i] = Result{item: items[lo+i]}
+	}
+	rev := t.revision
+	kind := zzv.Choose(0, 2)
+	switch kind {
+	case 1:
+		rev.bumpMinor()
+	case 2:
+		rev.bumpMajor()
+	}
+	mg := NewMerger(nil, [][]Result{list}, false, false, rev, int32(lo))
+	t.UpdateList(mg)
+	zzv.Reach("called")
+	ok := true
+	for i := range items {
+		_, sel := t.selected[int32(i)]
+		want := was[i]
+		switch kind {
+		case 1:
+			// items before the first loaded ordinal were trimmed by --tail; the others are still loaded
+			// (n is the number of *matches*, which a query can make smaller than the loaded range)
+			want = was[i] && i >= lo
+		case 2:
+			want = false
+		}
+		if sel != want {
+			ok = false
+		}
+	}
+	switch kind {
+	case 0:
+		zzv.Assert("selection-survives-new-results", ok)
+	case 1:
+		zzv.Assert("selection-filtered-to-live-window", ok)
+	default:
+		zzv.Assert("selection-dropped-on-reload", ok)
+	}
+	zzv.Assert("list-replaced", t.merger == mg && t.revision == rev)
+}
